@@ -318,6 +318,12 @@ class Folder:
             raise Unfoldable(e)
         if fname == "set" and len(e.args) == 1:
             return set(self.eval(e.args[0]))
+        if fname in ("abs", "min", "max", "int", "float", "bool", "round", "sum", "sorted", "range", "divmod") and e.args and not e.keywords:
+            vals = [self.eval(a) for a in e.args]
+            if all(isinstance(v, (int, float, bool)) or (isinstance(v, (list, tuple)) and all(isinstance(x, (int, float, bool)) for x in v)) for v in vals):
+                r = {"abs": abs, "min": min, "max": max, "int": int, "float": float, "bool": bool, "round": round, "sum": sum, "sorted": sorted,
+                     "range": lambda *a: list(range(*a)), "divmod": divmod}[fname](*vals)
+                return r
         if fname in ("re.compile",) and e.args:
             return re.compile(self.eval(e.args[0]))
         f = self.eval(e.func)
